@@ -276,6 +276,11 @@ def _run_native(
             IOReadOnEOF,
             last_ops_length=last_ops.maxlen if last_ops is not None and last_ops.maxlen else 0,
         )
+    except BaseException:
+        # the ops executed before the stop stay visible, as in the python loops
+        if last_ops is not None:
+            last_ops.extend(core.last_run_last_ops)
+        raise
     finally:
         # keep op_counter, the IO-paused time and the storage mode valid on the exception
         # paths too (Ctrl+C, IO-device errors)
